@@ -382,3 +382,233 @@ func H_C09_Mix() {
 	m.A, m.B, m.C, m.D, m.E, m.G = m2.A, m2.B, m2.C, m2.D, m2.E, m2.G
 	pbC09(m, expMix(pbBuf(), m2))
 }
+
+// ======================================================================================================
+// C06 / C10: Unmarshal of composite messages agrees with the reference on valid encodings
+
+func leafEq(a, b *Leaf) bool {
+	return verifAnd(a.A == b.A, verifBytesEq([]byte(a.S), []byte(b.S)))
+}
+
+func H_C06_Msgs() {
+	src := mkMsgs("", 2)
+	in := expMsgs(pbBuf(), src)
+	m := mkMsgs("d_", 2) // pre-populated destination
+	err := m.Unmarshal(in)
+	verifAssert(err == nil, "Unmarshal accepts the canonical encoding")
+	verifAssert2((m.M != nil) == (src.M != nil), len(m.Rm) == len(src.Rm), "presence and element count (empty elements included) are decoded")
+	if m.M != nil && src.M != nil {
+		verifAssert(leafEq(m.M, src.M), "nested message fields")
+	}
+	for i := 0; i < len(src.Rm) && i < len(m.Rm); i++ {
+		verifAssert(leafEq(m.Rm[i], src.Rm[i]), "repeated message elements in order")
+	}
+	verifAssert(m.Tail == src.Tail, "scalar after messages")
+	verifAssertDecodesLikeRef(m, in, "Unmarshal result equals the message the reference runtime decodes")
+	verifReach("end")
+}
+
+// a singular message field occurring twice: the occurrences are merged (protobuf encoding spec)
+func H_C06_Msgs_Merge() {
+	a := nondetI32("a")
+	verifAssume(a > 0)
+	verifAssume(a < 64)
+	s := pbBytes1("s")
+	verifAssume(len(s) > 0)
+	first := &Leaf{A: a}
+	second := &Leaf{S: string(s)}
+	in := expLeafField(pbBuf(), 1, first)
+	in = expLeafField(in, 1, second)
+	m := &Msgs{}
+	err := m.Unmarshal(in)
+	verifAssert2(err == nil, m.M != nil, "Unmarshal accepts a repeated occurrence of a singular message field")
+	if m.M != nil {
+		verifAssert2(m.M.A == a, verifBytesEq([]byte(m.M.S), s), "occurrences of a singular message field are merged, not replaced")
+	}
+	verifAssertDecodesLikeRef(m, in, "Unmarshal result equals the message the reference runtime decodes")
+	verifReach("end")
+}
+
+func H_C06_Node() {
+	src := mkNode("", 2)
+	in := expNode(pbBuf(), src)
+	m := &Node{V: 9, Kids: []*Node{{V: 1}}}
+	err := m.Unmarshal(in)
+	verifAssert(err == nil, "Unmarshal accepts the canonical encoding of a recursive message")
+	verifAssert3(m.V == src.V, (m.Next != nil) == (src.Next != nil), len(m.Kids) == len(src.Kids), "top level")
+	if m.Next != nil && src.Next != nil {
+		verifAssert2(m.Next.V == src.Next.V, (m.Next.Next != nil) == (src.Next.Next != nil), "second level")
+		if m.Next.Next != nil && src.Next.Next != nil {
+			verifAssert(m.Next.Next.V == src.Next.Next.V, "third level")
+		}
+	}
+	if len(m.Kids) == 1 && len(src.Kids) == 1 {
+		verifAssert(m.Kids[0].V == src.Kids[0].V, "kid")
+	}
+	verifAssertDecodesLikeRef(m, in, "Unmarshal result equals the message the reference runtime decodes")
+	verifReach("end")
+}
+
+// oneof: two different members in sequence - the last one wins and the earlier one is gone
+func H_C06_One() {
+	first, _ := mkOne("a_")
+	second, which := mkOne("b_")
+	in := expOne(pbBuf(), first)
+	in = protowire.AppendVarint(protowire.AppendTag(in, 77, protowire.VarintType), 5)
+	in = expOne(in, second)
+	m := &One{C: &One_I{I: 42}}
+	err := m.Unmarshal(in)
+	verifAssert(err == nil, "Unmarshal accepts oneof members")
+	want := second
+	if which == 0 {
+		want = first
+	}
+	back := expOne(pbBuf(), m)
+	verifAssertBytesEq(back, expOne(pbBuf(), want), "the last oneof member on the wire is the one that is set, with its value")
+	verifAssertDecodesLikeRef(m, in, "Unmarshal result equals the message the reference runtime decodes")
+	verifAssertNoAlias(m, in, "safe-mode decoding does not alias the input buffer")
+	verifReach("end")
+}
+
+func H_C10_One() { H_C06_One() }
+
+// map entries: key and value in either order, omitted, duplicated; later entries with the same key win
+func mapsEntry(shape int, k int32, v string, k2 int32) []byte {
+	ent := make([]byte, 0, 32)
+	key := func(b []byte, k int32) []byte {
+		return protowire.AppendVarint(protowire.AppendTag(b, 1, protowire.VarintType), uint64(int64(k)))
+	}
+	val := func(b []byte, v string) []byte {
+		return protowire.AppendString(protowire.AppendTag(b, 2, protowire.BytesType), v)
+	}
+	switch shape {
+	case 0: // key, value
+		ent = val(key(ent, k), v)
+	case 1: // value, key
+		ent = key(val(ent, v), k)
+	case 2: // key only: the value takes its default
+		ent = key(ent, k)
+	case 3: // value only: the key takes its default
+		ent = val(ent, v)
+	case 4: // empty entry: default key, default value
+	default: // key, value, key again: the last key wins
+		ent = key(val(key(ent, k2), v), k)
+	}
+	return ent
+}
+
+func H_C06_Maps_Shapes() {
+	shape := nondetInt("shape")
+	verifAssume(shape >= 0)
+	verifAssume(shape <= 5)
+	shape = verifConcretize(shape)
+	k := nondetI32("k")
+	verifAssume(k > 0)
+	verifAssume(k < 64)
+	v := string(pbBytes1("v"))
+	ent := mapsEntry(shape, k, v, 63-k)
+	in := protowire.AppendBytes(protowire.AppendTag(pbBuf(), 2, protowire.BytesType), ent)
+	in = protowire.AppendVarint(protowire.AppendTag(in, 77, protowire.VarintType), 5) // a following field must not be swallowed
+	wantK, wantV := k, v
+	switch shape {
+	case 2:
+		wantV = ""
+	case 3:
+		wantK = 0
+	case 4:
+		wantK, wantV = 0, ""
+	}
+	m := &Maps{Is: map[int32]string{1000: "old"}}
+	err := m.Unmarshal(in)
+	verifAssert(err == nil, "Unmarshal accepts a map entry with key and value in either order, omitted or repeated")
+	verifAssert(len(m.Is) == 1, "exactly the decoded entry is in the map (previous contents are gone)")
+	got, ok := m.Is[wantK]
+	verifAssert2(ok, verifBytesEq([]byte(got), []byte(wantV)), "the entry has the reference's key and value (defaults for omitted parts)")
+	verifAssertDecodesLikeRef(m, in, "Unmarshal result equals the message the reference runtime decodes")
+	verifReach("end")
+}
+
+// one entry per map kind, canonical form; and a repeated key (last entry wins)
+func H_C06_Maps_Kinds() {
+	m0 := &Maps{}
+	which := nondetInt("which")
+	verifAssume(which >= 1)
+	verifAssume(which <= 6)
+	var in []byte
+	switch verifConcretize(which) {
+	case 1:
+		m0.Ss = map[string]int32{string(pbBytes1("k")): nondetI32("v")}
+	case 2:
+		m0.Is = map[int32]string{nondetI32("k"): string(pbBytes1("v"))}
+	case 3:
+		m0.Ub = map[uint64][]byte{nondetU64("k"): pbBytesNonNil("v")}
+	case 4:
+		m0.Sl = map[string]*Leaf{string(pbBytes1("k")): mkLeaf("v_", false)}
+	case 5:
+		m0.Fd = map[int32]float64{nondetI32("k"): math.Float64frombits(nondetU64("v"))}
+	default:
+		m0.Ie = map[int64]E{nondetI64("k"): E(nondetI32("v"))}
+	}
+	in, err := m0.Marshal() // C05 shows these bytes are canonical
+	verifAssert(err == nil, "Marshal")
+	m := &Maps{}
+	err = m.Unmarshal(in)
+	verifAssert(err == nil, "Unmarshal accepts the canonical encoding of every map kind")
+	verifAssert(len(m.Ss)+len(m.Is)+len(m.Ub)+len(m.Sl)+len(m.Fd)+len(m.Ie) == 1, "one entry decoded")
+	back, err := m.Marshal()
+	verifAssert(err == nil, "Marshal of the decoded message")
+	verifAssertBytesEq(back, in, "decoding and re-encoding a single map entry reproduces it")
+	verifAssertDecodesLikeRef(m, in, "Unmarshal result equals the message the reference runtime decodes")
+	verifAssertNoAlias(m, in, "safe-mode decoding does not alias the input buffer")
+	verifReach("end")
+}
+
+func H_C10_Maps_Kinds() { H_C06_Maps_Kinds() }
+
+func H_C06_Mix() {
+	src := mkMix("")
+	in := expMix(pbBuf(), src)
+	m := mkMix("d_")
+	err := m.Unmarshal(in)
+	verifAssert(err == nil, "Unmarshal accepts the canonical encoding")
+	back := expMix(pbBuf(), m)
+	verifAssertBytesEq(back, in, "every field is decoded to the encoded value; nothing of the previous contents remains")
+	verifAssertDecodesLikeRef(m, in, "Unmarshal result equals the message the reference runtime decodes")
+	verifAssertNoAlias(m, in, "safe-mode decoding does not alias the input buffer")
+	verifReach("end")
+}
+
+func H_C10_Mix() { H_C06_Mix() }
+
+// ======================================================================================================
+// C08: Unmarshal is total on arbitrary bytes (no panic, allocation in proportion to the input)
+
+func pbC08(m pbMsg, nmax int) {
+	p := nondetBytes("p", nmax)
+	verifAllocLimit(8*len(p) + 64)
+	_ = m.Unmarshal(p)
+	verifReach("end")
+}
+
+func c08N(q, t int) int {
+	if verifTier() == 1 {
+		return t
+	}
+	return q
+}
+
+func H_C08_SInt32()   { pbC08(&SInt32{}, c08N(5, 7)) }
+func H_C08_SSint64()  { pbC08(&SSint64{}, c08N(5, 7)) }
+func H_C08_SFixed32() { pbC08(&SFixed32{}, c08N(6, 8)) }
+func H_C08_SSfixed64() { pbC08(&SSfixed64{}, c08N(6, 10)) }
+func H_C08_SFloat()   { pbC08(&SFloat{}, c08N(6, 8)) }
+func H_C08_SDouble()  { pbC08(&SDouble{}, c08N(6, 10)) }
+func H_C08_SBool()    { pbC08(&SBool{}, c08N(5, 7)) }
+func H_C08_SEnum()    { pbC08(&SEnum{}, c08N(5, 7)) }
+func H_C08_SString()  { pbC08(&SString{}, c08N(5, 7)) }
+func H_C08_SBytes()   { pbC08(&SBytes{}, c08N(5, 7)) }
+func H_C08_Msgs()     { pbC08(&Msgs{}, c08N(5, 6)) }
+func H_C08_Node()     { pbC08(&Node{}, c08N(5, 6)) }
+func H_C08_One()      { pbC08(&One{}, c08N(4, 6)) }
+func H_C08_Maps()     { pbC08(&Maps{}, c08N(4, 6)) }
+func H_C08_Mix()      { pbC08(&Mix{}, c08N(4, 6)) }
